@@ -70,7 +70,9 @@ type Config struct {
 	TLS        *tls.Config
 	// TLSHandshake overrides the server side of the handshake (C07 garbage); nil = tls.Server handshake.
 	TLSGarbage bool
-	Auth       AuthHandler
+	// TLSStall: after "220 ready" the server never starts the handshake and holds the connection.
+	TLSStall bool
+	Auth     AuthHandler
 	// Delay is called before every reply is written (latency jitter).
 	Delay func(verb string) time.Duration
 	// DataReadDelay slows down reading of DATA content (per read call).
@@ -764,6 +766,11 @@ func (s *Session) startTLS() error {
 	if s.br.Buffered() > 0 {
 		b, _ := s.br.Peek(s.br.Buffered())
 		s.violate("bytes-after-starttls-before-handshake", fmt.Sprintf("%d buffered bytes", len(b)))
+	}
+	if s.Cfg.TLSStall {
+		s.record(&CmdRecord{Index: s.step, Verb: "TLS-HANDSHAKE", Stalled: true})
+		<-s.stop
+		return errStop
 	}
 	if s.Cfg.TLSGarbage {
 		_, _ = s.conn.Write([]byte("this is not a TLS server hello at all, sorry\r\n"))
